@@ -60,6 +60,13 @@ def configs(tier, seed):
         vals = fam.concrete_values(len(pat), seed, k)
         cfgs.append(dict(name=f"K frac p={p} mults={pat} vals={[str(v) for v in vals]}", mode="K", p=p, mults=pat,
                          vals=[str(v) for v in vals], rational=bool(k % 2), dim=0, call="call"))
+    # the same curve object evaluated again, at the same parameter, after its state was replaced (nothing may be remembered)
+    for k, (p, pat) in enumerate(fam.pattern_family(range(1, 4), 1, seed=seed)):
+        if (k + seed) % 3 and tier == "quick":
+            continue
+        vals = fam.concrete_values(len(pat), seed + 2, k)
+        cfgs.append(dict(name=f"K restate p={p} mults={pat} vals={[str(v) for v in vals]}", mode="K", p=p, mults=pat,
+                         vals=[str(v) for v in vals], rational=False, dim=0, call="call", restate=True))
     # close knots: no minimum gap (known finding F5 lives here)
     cfgs.append(dict(name="S close p=1 mults=[2, 1, 2] pol dim=0 call", mode="S", p=1, mults=[2, 1, 2], rational=False,
                      dim=0, call="call", close=True))
@@ -102,6 +109,27 @@ def body(env, cfg):
         if env.sym:
             env.patch(heavy, "find_roots", lambda *a, **k: ())
     curve = Curve(list(kv.U), P, W)
+    if cfg.get("restate"):
+        from .c08 import conc_weights
+        u = env.real("u")
+        env.assume((t[0] <= u) & (u <= t[-1]))
+        d = kv.locate(u)
+        Q = make_points(env, "Q", npts, 0)
+        W1, W2 = conc_weights(npts, 3), conc_weights(npts, 5)
+        states = [("as built", P, None), ("weights set", P, W1), ("weights replaced", P, W2), ("control points replaced", Q, W2),
+                  ("weights removed", Q, None), ("control points replaced again", P, None)]
+        for tag, pts, w in states:
+            if tag.startswith("weights"):
+                curve.weights = w
+            elif tag.startswith("control"):
+                curve.ctrlpoints = pts
+            for arg, pick in ((u, lambda r: r), ([u, t[0]], lambda r: r[0]), (u, lambda r: r)):
+                val = pick(curve(arg))
+                ref = curve_value(kv, pts, w, u, d)
+                if w is not None:
+                    ref = divnz(ref[0], ref[1])
+                env.eq(f"{tag}: curve(u) == sum R_i(u) P_i of the current state", val, ref)
+        return
     us = [env.real("u")]
     if cfg["call"] == "seq":
         us.append(env.real("v"))
